@@ -466,6 +466,14 @@ func (c *Controller) Run() {
 			}
 			// nobody can be released: cancel the contexts of blocked actors (forced), then give up
 			if !c.forceCancel() {
+				// the schedule is exhausted and nothing can be cancelled.  A writer that waits for the
+				// token while a CLIENT still holds an open write transaction (session transaction, direct
+				// Begin) is not wedged: the real code leaves that wait through the one-minute token timeout.
+				// End what clients hold (as the scenario teardown does) and go on; only if the blocked
+				// actors still cannot move after that it is a deadlock.
+				if c.clientTeardown() {
+					continue
+				}
 				c.mu.Lock()
 				c.Deadlocked = true
 				for _, a := range c.actors[1:] {
@@ -492,6 +500,62 @@ func (c *Controller) Run() {
 		c.apply(ch)
 	}
 	c.Stalled = true
+}
+
+// clientTeardown ends the write transactions that CLIENTS still hold open (session transactions,
+// direct Begin handles) from the controller's own goroutine, each with a 300 ms limit (in a genuine
+// lock cycle the call itself blocks and is abandoned).  It reports whether anything was ended.
+func (c *Controller) clientTeardown() bool {
+	w := c.W
+	run := func(f func()) bool {
+		done := make(chan struct{})
+		go func() {
+			defer close(done)
+			defer func() { _ = recover() }()
+			f()
+		}()
+		select {
+		case <-done:
+			return true
+		case <-time.After(300 * time.Millisecond):
+			return false
+		}
+	}
+	did := false
+	for id := 1; id <= len(w.Sessions); id++ {
+		s := w.Sessions[id]
+		if s == nil {
+			continue
+		}
+		if hasTxn, _, ended := sessionPeek(s); hasTxn && !ended {
+			ok := run(func() { _ = s.AbortTransaction(context.Background()) })
+			c.mu.Lock()
+			c.add(Record{Kind: "teardown", Site: fmt.Sprintf("session %d aborted=%v", id, ok)})
+			c.mu.Unlock()
+			did = did || ok
+		}
+	}
+	w.mu.Lock()
+	hs := map[int]interface{}{}
+	for id, t := range w.handles {
+		hs[id] = t
+	}
+	w.mu.Unlock()
+	for id := range hs {
+		w.mu.Lock()
+		t := w.handles[id]
+		delete(w.handles, id)
+		w.mu.Unlock()
+		if t == nil {
+			continue
+		}
+		ok := run(func() { w.Engine.Abort(t) })
+		c.mu.Lock()
+		c.add(Record{Kind: "teardown", Site: fmt.Sprintf("handle of actor %d aborted=%v", id, ok)})
+		c.mu.Unlock()
+		did = did || ok
+	}
+	return did
 }
 
 // forceCancel cancels the context of every blocked actor that still has a live one.
